@@ -367,6 +367,6 @@ def known_class(sig, case):
 
 MANIFEST_ENTRY = {
     'technique': 'metamorphic relation through the real CLI: one trace.py run of N operations vs a run split at n1 by writing and re-reading a snapshot, over Hypothesis-generated programs, states and split points',
-    'level_text': 'For each generated program/state, trace.main is run for N operations and, for every split point (all of them for N <= 14, otherwise up to 12 drawn), for n1 operations to a snapshot and N-n1 more from that snapshot; the final snapshots must agree on RAM (all banks), all registers, IFF/IM, border, 0x7FFD/0xFFFD/AY, frame position (and MEMPTR/0xFE for SZX) and the stop line; formats szx/z80, 48K/128K, plain and -c, C and --python, with HALT waits, EI, prefix chains, block instructions, port writes and IM 2 around the split.',
-    'level_note': 'Program length bounded (N <= 60 quick, <= 3000 thorough). Snapshots are decoded with skoolkit\'s own reader, whose agreement with an independent decoder is C09\'s subject.',
+    'level_text': 'For each generated program/state, trace.main is run for N operations and, for every split point (all of them for N <= 14, otherwise up to 12 drawn), for n1 operations to a snapshot and N-n1 more from that snapshot; the final snapshots must agree on RAM (all banks), all registers, IFF/IM, border, 0x7FFD/0xFFFD/AY, frame position (and MEMPTR/0xFE for SZX) and the stop line; formats szx/z80, 48K/128K, plain and -c, C and --python, with HALT waits, EI, prefix chains, block instructions (incl. block OUTs that page memory), port writes, AY registers and IM 2 (ROM and explicit handlers) around the split; one run in four is long enough (2000-20000 operations) to reach the next frame interrupt after the split.',
+    'level_note': 'Run length bounded (N <= 60 or 2000-20000 quick, <= 3000 or 2000-20000 thorough; up to 12/60 split points per long run). Snapshots are decoded with skoolkit\'s own reader, whose agreement with an independent decoder is C09\'s subject.',
 }
